@@ -63,6 +63,25 @@ def to_runs(events) -> list:
     return [{"b": b, "lo": lo, "hi": hi} for b, runs in per.items() for lo, hi in runs]
 
 
+def clash_candidates(events) -> list:
+    """Events whose generated NAME (prefix followed by the id, Symbols!GenName) could coincide with the name of an
+    event of another prefix: that needs one prefix to be the other one followed by digits ("m1" / "m"), so only the
+    events of such prefix pairs are listed (none with the library's SYM / FUN / QTY / SYS / C / VEC prefixes).
+    TLC builds the names and decides (invariant NameClash of the trace specifications)."""
+    bases = {e[0] for e in events}
+    related = set()
+    for b in bases:
+        for a in bases:
+            if a != b and b.startswith(a) and b[len(a):].isdigit():
+                related |= {a, b}
+    seen, out = set(), []
+    for e in events:
+        if e[0] in related and (e[0], e[1]) not in seen:
+            seen.add((e[0], e[1]))
+            out.append({"b": e[0], "id": e[1]})
+    return out[:3000]
+
+
 # constants of Symbols.tla are irrelevant for trace validation (no model action is taken)
 NULL_CONSTANTS = dict(MaxSteps=0, Actions=set(), Names=set(), Latexes=set(), DimNames=set(), Assums=set(),
                       CloneAssums=set(), Subs=set(), SysTypes=set(), BatchSizes=set())
@@ -75,10 +94,11 @@ def validate(run, sc: Path, traces: list, what: str, module: str = "SymbolsTrace
         return {}
     f = sc / f"idtrace_{abs(hash(what)) % 10**8}.json"
     names = [t["tid"] for t in traces]
-    f.write_text(json.dumps({"traces": [{"tid": i, "runs": t["runs"]} for i, t in enumerate(traces)]}))  # short tids:
+    f.write_text(json.dumps({"traces": [{"tid": i, "runs": t["runs"], "named": t.get("named", [])}
+                                        for i, t in enumerate(traces)]}))  # short tids:
     # TLC wraps long printed tuples over several lines
     cfg = write_cfg(sc / f"{f.stem}.cfg", init="TraceInit", next_="TraceNext", constants=NULL_CONSTANTS,
-                    invariants=["Accepted", "Stuck"])
+                    invariants=["Accepted", "Stuck", "NameClash"])
     res = run_tlc(module, cfg, sc, workers=1, env={"TRACE_FILE": str(f)}, allow_violation=False)
     run.add_tlc(res, f"trace validation ({module}): {what}")
     verdict: dict = {}
@@ -88,6 +108,13 @@ def validate(run, sc: Path, traces: list, what: str, module: str = "SymbolsTrace
             verdict.setdefault(names[v[1]], None)
         elif v[0] == "STUCK":
             verdict[names[v[1]]] = tuple(v[2:])
+        elif v[0] == "CLASH":
+            t = traces[v[1]]
+            a, b = t["named"][v[2] - 1], t["named"][v[3] - 1]
+            run.violation(f"{key_prefix}:alias:{a['b']}{a['id']}",
+                          f"trace {t['tid']}: the generated name {a['b']}{a['id']} is built twice - from prefix "
+                          f"{a['b']!r} id {a['id']} and from prefix {b['b']!r} id {b['id']} (NoAlias of Symbols.tla)",
+                          {"trace": t["tid"], "events": [a, b]})
     missing = [t["tid"] for t in traces if t["tid"] not in verdict]
     if missing:
         raise RuntimeError(f"trace validation gave no verdict for {missing[:5]}")
